@@ -1,6 +1,7 @@
 import Holpy.C19.DerivProofs
 import Holpy.C19.IvalProofs
 import Holpy.C19.IntegralProofs
+import Holpy.C19.ParseProofs2
 /-
 C19 — property theorems (statements only; proofs live in DerivProofs*, IvalProofs*, IntegralProofs).
 
@@ -68,6 +69,23 @@ example : (⟨.fin 0, .fin 1, false, true⟩ : Ival).mem ((0 : ℝ) * (1 / 2)) :
 example : Ival.powNat ⟨.fin (-2), .fin 1, false, false⟩ 4 = ⟨.fin 0, .fin 16, false, false⟩ := by decide +kernel
 example : Ival.div ⟨.fin 1, .fin 1, false, false⟩ ⟨.fin (-1), .fin 2, false, false⟩ = some ⟨.negInf, .posInf, true, true⟩ := by
   decide +kernel
+
+/-! ### Printing an expression and parsing it back returns the same expression -/
+
+/-- For every expression in the parser's image (`WF`: no identifier spelled like a keyword, no `c1 / c2` of two
+constants and no unary minus of a positive constant — the parser's transformer folds both), parsing the token
+list the printer emits (same bracket decisions as `Expr.__str__`: `priority()`, the `(-x) ^ n` rule, fractions and
+negative constants) with the model of the Lark grammar gives the expression back; all rational constants, nested
+integrals / evaluations / derivatives included, with the fuel the driver uses.
+PARTIAL: token level.  That lexing the printed *string* `pp e` yields exactly `ppT e` is not proved; the driver
+checks it on every generated case of every run (flag `T` of the `print` request), as it checks `pp`/`parse`
+against `str`/`parse_expr`. -/
+theorem expr_parse_print_partial (e : Expr) (h : WF e) : parseToks (ppT e) = some e := parse_print_toks e h
+
+/-- Non-vacuity: `-(x ^ 2) * (-3/2) ^ y - INT t:[0,x]. t / (1 + t)` is well formed. -/
+example : WF (sub (mul (neg (pow (var "x") (num 2))) (pow (const (-3/2 : Rat)) (var "y")))
+    (integral "t" (num 0) (var "x") (div (var "t") (add (num 1) (var "t"))))) := by
+  simp [WF, keywords, Expr.isConst]
 
 /-! ### Linearity and splitting of definite integrals (the logic cores of `Linearity`, `SplitRegion`) -/
 
